@@ -95,7 +95,12 @@ fn drive(p: &Params, levels: &[i64], last_script: &[Ans], seed: u64) -> Result<R
             quotes.push(w.place_foreign(false, 1_000_000, Some(ask)));
             let mut r1 = ScriptRng::new(vec![], 12);
             w.step(&mut r1);
-            let mid = w.mid();
+            // (what the agents should see, recomputed from the order list; w.mid() - the book's own
+            // view - must agree with it)
+            let mid = true_mid(&w);
+            if (w.mid() - mid).abs() > 1e-9 {
+                panic!("the book reports a mid-price of {} but its resting orders give {}", w.mid(), mid);
+            }
             out.mids.push(mid);
             let before = w.orders().len();
             let script = if r + 1 == levels.len() { last_script.to_vec() } else { vec![] };
@@ -114,6 +119,90 @@ fn drive(p: &Params, levels: &[i64], last_script: &[Ans], seed: u64) -> Result<R
             out.flows.push(flow);
             let mut r2 = ScriptRng::new(vec![], 13);
             w.step(&mut r2);
+        }
+        out
+    })
+}
+
+/// mid-price recomputed from the order list alone (not through the book's own views)
+fn true_mid(w: &World) -> f64 {
+    let o = w.orders();
+    let bid = o.iter().filter(|x| x.status == ACTIVE && x.bid).map(|x| x.price).max();
+    let ask = o.iter().filter(|x| x.status == ACTIVE && !x.bid).map(|x| x.price).min();
+    (bid.unwrap_or(0) as f64 + ask.unwrap_or(MAXP) as f64) / 2.0
+}
+
+/// Another way of imposing the path: two layers of quotes per side (touch and one tick behind)
+/// that are RE-QUOTED WITHIN ONE STEP - cancel both old bids and place both new ones as one
+/// shuffled batch of four, processed in the order selected by `perm` (one of the 24 index
+/// scripts), then the same for the asks - instead of emptying the book first. The agents see a
+/// book whose touch moved through cancellations and worse-priced arrivals in every possible order.
+fn drive_requote(p: &Params, levels: &[i64], perm: usize, seed: u64) -> Result<RunOut, String> {
+    util::subject(|| {
+        let c = p.cfg();
+        let mut w = World::new(p.multi, &c, StartBook::Empty, 500);
+        let scripts = crate::scriptrng::all_index_scripts(4);
+        let script = scripts[perm % scripts.len()].clone();
+        let mut out = RunOut { mids: vec![], flows: vec![] };
+        // (inner, outer) quote ids per side
+        let mut qb: Option<(usize, usize)> = None;
+        let mut qa: Option<(usize, usize)> = None;
+        for (r, &m) in levels.iter().enumerate() {
+            // agent leftovers go first, in a step of their own
+            let mine: Vec<usize> = [qb, qa].iter().flatten().flat_map(|(a, b)| [*a, *b]).collect();
+            let mut any = false;
+            for o in w.orders() {
+                if o.status == ACTIVE && !mine.contains(&o.id) {
+                    w.cancel_foreign(o.id);
+                    any = true;
+                }
+            }
+            if any {
+                let mut r0 = ScriptRng::new(vec![], 11);
+                w.step(&mut r0);
+            }
+            let (b, a) = ((m / 2 - 1) as u32 * p.tick, (m / 2 + 1) as u32 * p.tick);
+            // each side: cancel both old quotes and place both new ones in ONE shuffled batch; the
+            // side that moves AWAY from the other goes first, so that the new quotes never cross
+            let rising = r > 0 && m > levels[r - 1];
+            for bid_side in if rising { [false, true] } else { [true, false] } {
+                if bid_side {
+                    if let Some((i, o)) = qb {
+                        w.cancel_foreign(i);
+                        w.cancel_foreign(o);
+                    }
+                    let nb = (w.place_foreign(true, 1_000_000, Some(b)), w.place_foreign(true, 1_000_000, Some(b - p.tick)));
+                    let mut r1 = ScriptRng::new(if qb.is_some() { script.clone() } else { vec![] }, 12);
+                    w.step(&mut r1);
+                    qb = Some(nb);
+                } else {
+                    if let Some((i, o)) = qa {
+                        w.cancel_foreign(i);
+                        w.cancel_foreign(o);
+                    }
+                    let na = (w.place_foreign(false, 1_000_000, Some(a)), w.place_foreign(false, 1_000_000, Some(a + p.tick)));
+                    let mut r2 = ScriptRng::new(if qa.is_some() { script.clone() } else { vec![] }, 13);
+                    w.step(&mut r2);
+                    qa = Some(na);
+                }
+            }
+            out.mids.push(true_mid(&w));
+            let before = w.orders().len();
+            let mut rng = ScriptRng::new(vec![], seed.wrapping_add(r as u64));
+            rng.budget = 100_000;
+            w.update(&mut rng);
+            let after = w.orders();
+            let mut flow: Flow = after[before..]
+                .iter()
+                .map(|o| {
+                    let market = (o.bid && o.price == MAXP) || (!o.bid && o.price == 0);
+                    (o.trader, market, o.bid, o.price, o.vol)
+                })
+                .collect();
+            flow.sort();
+            out.flows.push(flow);
+            let mut r3 = ScriptRng::new(vec![], 14);
+            w.step(&mut r3);
         }
         out
     })
@@ -426,6 +515,65 @@ pub fn c17(tier: &str) -> i32 {
             }
         }
     }
+    // the path imposed by re-quoting two layers within one shuffled step, every processing order
+    let mut requote_runs = 0u64;
+    {
+        let moves = [-4i64, -2, 0, 2, 4];
+        let mut paths: Vec<Vec<i64>> = vec![vec![0]];
+        let mut all: Vec<Vec<i64>> = Vec::new();
+        for _ in 0..(if t { 4 } else { 3 }) {
+            let mut next = Vec::new();
+            for pth in &paths {
+                for mv in moves {
+                    let mut q = pth.clone();
+                    q.push(pth[pth.len() - 1] + mv);
+                    next.push(q);
+                }
+            }
+            all.extend(next.iter().cloned());
+            paths = next;
+        }
+        let jobs: Vec<(bool, usize, usize)> = [false, true].iter().flat_map(|&multi| (0..all.len()).flat_map(move |pi| (0..24usize).map(move |perm| (multi, pi, perm)))).collect();
+        let nextj = AtomicU64::new(0);
+        let rq = AtomicU64::new(0);
+        std::thread::scope(|sc| {
+            for _ in 0..util::n_threads() {
+                sc.spawn(|| loop {
+                    let i = nextj.fetch_add(1, Ordering::Relaxed) as usize;
+                    if i >= jobs.len() {
+                        break;
+                    }
+                    let (multi, pi, perm) = jobs[i];
+                    let p = Params { centre: CENTRE, big_moves: false, multi, tick: 1, n: 1, decay: 1.0, scale: 0.5, demand: 100.0, ratio: 0.0, mu: 0.0, mut_keep: false };
+                    let levels: Vec<i64> = all[pi].iter().map(|o| 2 * p.centre + o).collect();
+                    rq.fetch_add(1, Ordering::Relaxed);
+                    execs.fetch_add(1, Ordering::Relaxed);
+                    let replay = json!({"engine": "c17", "scenario": "two layers of quotes re-quoted within one shuffled step", "params": format!("{:?}", p), "mid_levels_in_half_ticks": levels, "processing_order_script": perm});
+                    match drive_requote(&p, &levels, perm, 3) {
+                        Ok(a) => {
+                            let ms = momentum_series(&p, &a.mids);
+                            for r in 0..levels.len() {
+                                let want_mid = levels[r] as f64 / 2.0 * p.tick as f64;
+                                if (a.mids[r] - want_mid).abs() > 1e-9 {
+                                    // (harness error: the quotes did not produce the intended mid-price)
+                                    fails.lock().unwrap().entry("machinery/requote-mid".to_string()).or_insert((format!("intended mid {} got {}", want_mid, a.mids[r]), replay.clone()));
+                                    break;
+                                }
+                                if let Err((c, d)) = judge_flow(&p, r, ms[r], &a.flows[r], None) {
+                                    fails.lock().unwrap().entry(format!("momentum/{}", c)).or_insert((format!("re-quoted within one step (processing order #{}): {}", perm, d), replay.clone()));
+                                }
+                            }
+                        }
+                        Err(m) => {
+                            fails.lock().unwrap().entry(format!("momentum/abort/{}", util::panic_sig(&m))).or_insert((m, replay));
+                        }
+                    }
+                });
+            }
+        });
+        requote_runs = rq.load(Ordering::Relaxed);
+    }
+    out.set("requoted_within_one_step", json!({"runs": requote_runs, "rule": "two layers of harness quotes per side, re-quoted as one shuffled batch of four (cancel, cancel, place, place) under each of the 24 processing orders; paths over moves of -2..+2 ticks; M recomputed from mid-prices derived from the order list alone"}));
     out.set("long_trends", json!({"runs": long_runs, "rounds_each": if t { 80 } else { 40 }, "rule": "steadily rising / falling mid-price at saturated demand with order ratio 1, the agents' limit orders rest 400 ticks behind the touch and accumulate: one market and one limit order per trader in every round, mirrored flow on the mirrored path"}));
     let e = execs.load(Ordering::Relaxed);
     out.set("states", json!(e));
